@@ -198,22 +198,56 @@ def truth(sc):
             ts = [mid[i] if (i < n and (us[i] is None or (sc["electric"] and us[i] == 0))) else ts[i]
                   for i in range(n + 1)]
         cells = []
+        meter = has_meter(sc)
+        trim = fam == "daily" and sc["entry"] == "from_series"
+        # from_series "trims the data to exclude NaNs on the outer edges": leading / trailing readings without a value
+        # are not data - the meter series is cut to its first..last value, the temperature series to its first..last
+        # value, and each is then cut to the range of the other (a day of the meter series reaches one period back)
+        ka, kb = 0, n - 1                               # cells kept
+        if trim and meter:
+            have = [i for i in range(n) if us[i] is not None]
+            if have:
+                ka, kb = have[0], have[-1]
         if sc["temp_source"] == "daily":
             tm = expand_runs(sc.get("temp_missing", []), n)
-            for i in range(n):
+            if trim and not all(tm):
+                fv = min(i for i in range(n) if not tm[i])
+                lv = max(i for i in range(n) if not tm[i])
+                ka, kb = max(ka, fv), min(kb, lv)
+            for i in range(ka, kb + 1):
                 cells.append({"t": ts[i], "month": local_month(ts[i], tz), "usage": us[i], "temp_valid": not tm[i],
                               "temp_present": not tm[i], "ghi": None})
         else:
             hs = hour_starts(sc)
             hm = expand_runs(sc.get("temp_missing", []), len(hs))
+            ha, hb = 0, len(hs) - 1                     # hours kept
+            if trim and not all(hm):
+                fv = min(j for j in range(len(hs)) if not hm[j])
+                lv = max(j for j in range(len(hs)) if not hm[j])
+                if meter and kb > ka:
+                    back = max(0, (ts[ka + 1] - ts[ka]) - 3600)
+                    ahead = max(0, (ts[kb] - ts[kb - 1]) - 3600)
+                else:
+                    back = ahead = 0
+                if meter:
+                    keep = [i for i in range(ka, kb + 1) if hs[fv] - back <= ts[i] <= hs[lv]]
+                else:                                   # the frame has one row per local day that holds a reading
+                    keep = [i for i in range(n) if ts[i + 1] > hs[fv] and ts[i] <= hs[lv]]
+                if keep:
+                    ka, kb = keep[0], keep[-1]
+                    ha = max(fv, min(j for j in range(len(hs)) if hs[j] >= ts[ka])) if meter else fv
+                    hb = min(lv, max(j for j in range(len(hs)) if hs[j] <= ts[kb] + ahead)) if meter else lv
+                else:
+                    ka, kb = 0, -1
             j = 0
-            while j < len(hs) and hs[j] < ts[0]:      # hours before the first read belong to no cell
+            while j < len(hs) and hs[j] < ts[ka if kb >= ka else 0]:      # hours before the first cell belong to no cell
                 j += 1
-            for i in range(n):
+            for i in range(ka, kb + 1):
                 tot = pres = 0
                 while j < len(hs) and hs[j] < ts[i + 1]:
-                    tot += 1
-                    pres += 0 if hm[j] else 1
+                    if ha <= j <= hb:
+                        tot += 1
+                        pres += 0 if hm[j] else 1
                     j += 1
                 cells.append({"t": ts[i], "month": local_month(ts[i], tz), "usage": us[i],
                               "temp_valid": 10 * pres > 9 * tot, "temp_present": 2 * pres > tot,
